@@ -8,6 +8,8 @@ use vstd::prelude::*;
 verus! {
 
 pub struct Context { pub g: u8 }
+// Pin::new on an Unpin stream is the identity on the reference (recorded substitution of the wrapper)
+pub fn verif_unpin<T>(x: &mut T) -> (r: &mut T) ensures *r == *old(x), *final(x) == *final(r) { x }
 pub struct ReadBuf { pub g: u8 }
 pub mod io { pub struct Error { pub k: u8 } pub type Result<T> = core::result::Result<T, Error>; }
 pub enum Poll<T> { Ready(T), Pending }
@@ -39,9 +41,7 @@ impl ConnType {
 //@lift name=ConnType::poll_read file=src/conn.rs impl="impl\\s+AsyncRead\\s+for\\s+ConnType\\s*\\{" fn=poll_read
 //@ sub "self: Pin<&mut Self>" => "this: &mut ConnType"
 //@ sub "self.get_mut()" => "this"
-//@ sub "Pin::new(ts)" => "ts"
-//@ sub "Pin::new(tls)" => "tls"
-//@ sub "Pin::new(us)" => "us"
+//@ sub "Pin::new(" => "verif_unpin(" count=*
 //@ ret r
 //@ spec
     ensures
@@ -51,9 +51,7 @@ impl ConnType {
 //@lift name=ConnType::poll_write file=src/conn.rs impl="impl\\s+AsyncWrite\\s+for\\s+ConnType\\s*\\{" fn=poll_write
 //@ sub "self: Pin<&mut Self>" => "this: &mut ConnType"
 //@ sub "self.get_mut()" => "this"
-//@ sub "Pin::new(ts)" => "ts"
-//@ sub "Pin::new(tls)" => "tls"
-//@ sub "Pin::new(us)" => "us"
+//@ sub "Pin::new(" => "verif_unpin(" count=*
 //@ ret r
 //@ spec
     ensures
@@ -63,9 +61,7 @@ impl ConnType {
 //@lift name=ConnType::poll_flush file=src/conn.rs impl="impl\\s+AsyncWrite\\s+for\\s+ConnType\\s*\\{" fn=poll_flush
 //@ sub "self: Pin<&mut Self>" => "this: &mut ConnType"
 //@ sub "self.get_mut()" => "this"
-//@ sub "Pin::new(ts)" => "ts"
-//@ sub "Pin::new(tls)" => "tls"
-//@ sub "Pin::new(us)" => "us"
+//@ sub "Pin::new(" => "verif_unpin(" count=*
 //@ ret r
 //@ spec
     ensures
@@ -75,9 +71,7 @@ impl ConnType {
 //@lift name=ConnType::poll_shutdown file=src/conn.rs impl="impl\\s+AsyncWrite\\s+for\\s+ConnType\\s*\\{" fn=poll_shutdown
 //@ sub "self: Pin<&mut Self>" => "this: &mut ConnType"
 //@ sub "self.get_mut()" => "this"
-//@ sub "Pin::new(ts)" => "ts"
-//@ sub "Pin::new(tls)" => "tls"
-//@ sub "Pin::new(us)" => "us"
+//@ sub "Pin::new(" => "verif_unpin(" count=*
 //@ ret r
 //@ spec
     ensures
